@@ -202,9 +202,22 @@ func monC10(rep Rep, v *View, cacheBefore []sim.CachedObj) (interesting bool) {
 		case "pods":
 			snap := v.ByName[a.Name]
 			before, _ := a.Before.(*corev1.Pod)
-			if a.Verb != "create" {
-				for _, tgt := range []*corev1.Pod{snap, before} {
+			fromOdd := false
+			if sent, ok := a.Obj.(*corev1.Pod); ok && a.Verb == "update" {
+				for _, o := range v.Odd {
+					if o.UID == sent.UID {
+						fromOdd = true // identity "repair" of a non-canonically named pod: not judged
+					}
+				}
+			}
+			if a.Verb != "create" && !fromOdd {
+				for i, tgt := range []*corev1.Pod{snap, before} {
 					if tgt == nil {
+						continue
+					}
+					if i == 1 && a.Err != nil {
+						// judged on the stored object only when the write took effect: an attempt that the
+						// API server rejects (e.g. a second controller reference) changes nothing
 						continue
 					}
 					if c := controllerOf(tgt.OwnerReferences); c != nil && string(c.UID) != uid {
